@@ -60,7 +60,7 @@ Proof.
       assert (N.max a w = a) as -> by lia. eauto.
     + intros v' c'. destruct (N.eqb_spec w v') as [->|_]; intro Hg; [lia|]. apply Hmax in Hg. lia.
   - split; [rewrite N.eqb_refl; eauto|].
-    intros v' c'. destruct (N.eqb_spec w v') as [->|_]; intro Hg; [lia|].
+    intros v' c'. destruct (N.eqb_spec n v') as [->|_]; intro Hg; [lia|].
     pose proof (proj1 (latest_none r) E v') as Hn. congruence.
 Qed.
 
@@ -203,4 +203,527 @@ Proof.
   induction l as [|c r IH]; intros s1 F HP; [exact F|]. cbn [exec].
   inversion HP as [|? ? Hc Hr]; subst.
   destruct (step s1 c) as [s2|] eqn:E; [|exact F]. apply IH; [eapply frame_step; eauto | exact Hr].
+Qed.
+
+(* ---------- publication of one manifest ---------- *)
+Record Pub (s s' : store) (fin : path) (m : manifest) : Prop := {
+  pb_fin : get s' fin = Some (CMan m);
+  pb_man : forall p, is_manifest_path p = true -> p <> fin -> get s' p = get s p;
+  pb_old : forall n, n <= max_file s -> get s' (PFile n) = get s (PFile n);
+  pb_file : forall n c, get s' (PFile n) = Some c -> exists d, c = CFile d;
+  pb_refs : forall r, In r (m_refs m) -> exists d, get s' (PFile r) = Some (CFile d)
+}.
+
+Lemma latest_char s n :
+  (exists c, get s (PMan n) = Some c) -> (forall v c, get s (PMan v) = Some c -> v <= n) -> latest s = Some n.
+Proof.
+  intros [c Hc] Hmax. destruct (latest s) as [a|] eqn:E.
+  - destruct (latest_some _ _ E) as [[c' Hc'] Hmax']. apply Hmax in Hc'. apply Hmax' in Hc. f_equal; lia.
+  - pose proof (proj1 (latest_none s) E n). congruence.
+Qed.
+
+Lemma pub_ref s s' fin m r d : Pub s s' fin m -> get s (PFile r) = Some (CFile d) -> get s' (PFile r) = Some (CFile d).
+Proof. intros P H. rewrite (pb_old _ _ _ _ P r); [exact H | eapply max_file_ge; exact H]. Qed.
+
+Lemma pub_visible_old s s' fin m v : WF s -> Pub s s' fin m -> PMan v <> fin -> visible s' v = visible s v.
+Proof.
+  intros W P Hne. unfold visible. rewrite (pb_man _ _ _ _ P (PMan v) eq_refl Hne).
+  destruct (get s (PMan v)) as [[d|m0]|] eqn:E; try reflexivity.
+  destruct (wf_man _ W (PMan v) _ eq_refl E) as (m' & Hm & _ & Hrefs). inversion Hm; subst m'.
+  f_equal. f_equal. apply map_ext_in. intros r Hr. destruct (Hrefs r Hr) as [d Hd].
+  rewrite Hd. eapply pub_ref; eauto.
+Qed.
+
+(* the shared part of WF after a publication *)
+Lemma pub_wf_man s s' fin m : WF s -> Pub s s' fin m -> is_manifest_path fin = true -> m_version m = path_version fin ->
+  forall p c, is_manifest_path p = true -> get s' p = Some c ->
+  exists m0, c = CMan m0 /\ m_version m0 = path_version p /\
+             forall r, In r (m_refs m0) -> exists d, get s' (PFile r) = Some (CFile d).
+Proof.
+  intros W P Hfin Hv p c Hp Hg.
+  assert (D : {p = fin} + {p <> fin}).
+  { destruct (path_eqb p fin) eqn:E; [left; apply path_eqb_eq; exact E | right; intro X; subst; rewrite path_eqb_refl in E; discriminate]. }
+  destruct D as [->|Hne].
+  - rewrite (pb_fin _ _ _ _ P) in Hg. inversion Hg; subst c. exists m. repeat split; auto. exact (pb_refs _ _ _ _ P).
+  - rewrite (pb_man _ _ _ _ P p Hp Hne) in Hg.
+    destruct (wf_man _ W p c Hp Hg) as (m0 & Hm & Hv0 & Hrefs). exists m0. repeat split; auto.
+    intros r Hr. destruct (Hrefs r Hr) as [d Hd]. exists d. eapply pub_ref; eauto.
+Qed.
+
+Lemma pub_attached s s' m :
+  WF s -> Pub s s' (PMan (latest0 s + 1)) m -> m_version m = latest0 s + 1 -> is_detached (latest0 s + 1) = false ->
+  WF s' /\ latest s' = Some (latest0 s + 1)
+  /\ (forall v, v <> latest0 s + 1 -> visible s' v = visible s v)
+  /\ visible s (latest0 s + 1) = None
+  /\ visible s' (latest0 s + 1) = Some (m, map (fun r => get s' (PFile r)) (m_refs m))
+  /\ refs_exist s' m = true.
+Proof.
+  intros W P Hv Hnd. set (n := latest0 s) in *.
+  assert (Hnew : get s (PMan (n + 1)) = None).
+  { apply has_false. destruct (has s (PMan (n + 1))) eqn:E; [|reflexivity]. apply (wf_dense _ W) in E. fold n in E. lia. }
+  assert (Hother : forall v, v <> n + 1 -> get s' (PMan v) = get s (PMan v)).
+  { intros v Hne. apply (pb_man _ _ _ _ P (PMan v) eq_refl). intro E; inversion E; contradiction. }
+  assert (HL : latest s' = Some (n + 1)).
+  { apply latest_char; [rewrite (pb_fin _ _ _ _ P); eauto|].
+    intros v c Hg. destruct (N.eq_dec v (n + 1)) as [->|Hne]; [lia|].
+    rewrite (Hother v Hne) in Hg.
+    assert (has s (PMan v) = true) as Hh by (apply has_true; eauto). apply (wf_dense _ W) in Hh. fold n in Hh. lia. }
+  assert (HL0 : latest0 s' = n + 1) by (unfold latest0; rewrite HL; reflexivity).
+  split; [|split; [exact HL|split; [|split; [|split]]]].
+  - constructor.
+    + intro v. rewrite HL0. destruct (N.eq_dec v (n + 1)) as [->|Hne].
+      * split; [lia|]. intros _. apply has_true. rewrite (pb_fin _ _ _ _ P); eauto.
+      * unfold has. rewrite (Hother v Hne). fold (has s (PMan v)). rewrite (wf_dense _ W v). fold n. lia.
+    + intro v. destruct (N.eq_dec v (n + 1)) as [->|Hne]; [intros _; exact Hnd|].
+      unfold has. rewrite (Hother v Hne). apply (wf_att _ W).
+    + intro v. unfold has. rewrite (pb_man _ _ _ _ P (PDet v) eq_refl) by discriminate. apply (wf_det _ W).
+    + apply (pub_wf_man s s' (PMan (n + 1)) m W P eq_refl). exact Hv.
+    + exact (pb_file _ _ _ _ P).
+  - intros v Hne. apply (pub_visible_old s s' _ m v W P). intro E; inversion E; contradiction.
+  - unfold visible. rewrite Hnew. reflexivity.
+  - unfold visible. rewrite (pb_fin _ _ _ _ P). reflexivity.
+  - unfold refs_exist. apply forallb_forall. intros r Hr. apply has_true.
+    destruct (pb_refs _ _ _ _ P r Hr) as [d Hd]. eauto.
+Qed.
+
+Lemma pub_detached s s' v m :
+  WF s -> Pub s s' (PDet v) m -> m_version m = v -> is_detached v = true ->
+  WF s' /\ latest s' = latest s /\ (forall x, visible s' x = visible s x).
+Proof.
+  intros W P Hv Hd.
+  assert (Hother : forall x, get s' (PMan x) = get s (PMan x)).
+  { intro x. apply (pb_man _ _ _ _ P (PMan x) eq_refl). discriminate. }
+  assert (HL : latest s' = latest s).
+  { apply latest_ext. intro x. unfold has. rewrite Hother. reflexivity. }
+  assert (HL0 : latest0 s' = latest0 s) by (unfold latest0; rewrite HL; reflexivity).
+  split; [|split; [exact HL|]].
+  - constructor.
+    + intro x. unfold has. rewrite Hother, HL0. apply (wf_dense _ W).
+    + intro x. unfold has. rewrite Hother. apply (wf_att _ W).
+    + intro x. destruct (N.eq_dec x v) as [->|Hne]; [intros _; exact Hd|].
+      unfold has. rewrite (pb_man _ _ _ _ P (PDet x) eq_refl) by (intro E; inversion E; contradiction). apply (wf_det _ W).
+    + apply (pub_wf_man s s' (PDet v) m W P eq_refl). exact Hv.
+    + exact (pb_file _ _ _ _ P).
+  - intro x. apply (pub_visible_old s s' _ m x W P). discriminate.
+Qed.
+
+(* the publishing store call turns a framed store into a published one *)
+Lemma pub_of_put s s1 x fin m :
+  Frame s x -> (forall p, p <> fin -> is_manifest_path p = true \/ (exists n, p = PFile n) -> get x p = get s1 p) ->
+  Frame s s1 -> is_manifest_path fin = true ->
+  (forall r, In r (m_refs m) -> exists d, get s1 (PFile r) = Some (CFile d)) ->
+  Pub s (put x fin (CMan m)) fin m.
+Proof.
+  intros _ Hx F Hfin Hrefs.
+  assert (Hf : forall n, get (put x fin (CMan m)) (PFile n) = get s1 (PFile n)).
+  { intro n. rewrite get_put_other by (destruct fin; discriminate). apply Hx; [destruct fin; discriminate | right; eauto]. }
+  constructor.
+  - apply get_put_same.
+  - intros p Hp Hne. rewrite get_put_other by (intro E; subst; contradiction).
+    rewrite Hx by auto. apply (fr_man _ _ F); exact Hp.
+  - intros n Hn. rewrite Hf. apply (fr_old _ _ F); exact Hn.
+  - intros n c. rewrite Hf. apply (fr_file _ _ F).
+  - intros r Hr. rewrite Hf. apply Hrefs; exact Hr.
+Qed.
+
+Lemma manifest_path_is_manifest v : is_manifest_path (manifest_path v) = true.
+Proof. unfold manifest_path; destruct (is_detached v); reflexivity. Qed.
+
+(* what the handler's calls do to a framed store s1 in which the manifest's references exist:
+   before the commit point nothing is published; past it the manifest is published, unless the final path
+   is taken (then the call fails and nothing changes) *)
+Lemma commit_calls_outcome s s1 h tv m j :
+  Frame s s1 -> (forall r, In r (m_refs m) -> exists d, get s1 (PFile r) = Some (CFile d)) ->
+  let fin := manifest_path tv in
+  let s2 := exec (firstn j (commit_calls h tv m)) s1 in
+  ((j <= commit_point h)%nat -> Frame s s2) /\
+  ((commit_point h < j)%nat ->
+     (Frame s s2 \/ Pub s s2 fin m) /\ (has s1 fin = false -> Pub s s2 fin m)).
+Proof.
+  intros F Hrefs fin s2.
+  pose proof (manifest_path_is_manifest tv) as Hfin. fold fin in Hfin.
+  assert (Pput : Pub s (put s1 fin (CMan m)) fin m).
+  { apply (pub_of_put s s1 s1 fin m); auto. }
+  assert (Ftmp : Frame s (put s1 (PTmp tv) (CMan m))).
+  { exact (frame_step s s1 (Put (PTmp tv) (CMan m)) _ F I eq_refl). }
+  assert (Pren : Pub s (put (del (put s1 (PTmp tv) (CMan m)) (PTmp tv)) fin (CMan m)) fin m).
+  { apply (pub_of_put s s1 (del (put s1 (PTmp tv) (CMan m)) (PTmp tv)) fin m); auto.
+    - exact (frame_step s _ (Del (PTmp tv)) _ Ftmp I eq_refl).
+    - intros p Hne [Hp|[n ->]].
+      + rewrite get_del_other by (destruct p; discriminate). apply get_put_other. destruct p; discriminate.
+      + rewrite get_del_other by discriminate. apply get_put_other. discriminate. }
+  subst s2. unfold commit_calls. fold fin.
+  destruct h; cbn [commit_point].
+  - (* conditional put *)
+    destruct j as [|j]; cbn [firstn exec step]; (split; [intro Hj | intro Hj]); try lia; try exact F.
+    destruct (has s1 fin) eqn:E.
+    + split; [left; exact F | discriminate].
+    + destruct j; cbn [firstn exec]; split; auto.
+  - (* rename *)
+    destruct j as [|[|j]]; cbn [firstn exec step]; (split; [intro Hj | intro Hj]); try lia; try exact F; try exact Ftmp.
+    rewrite get_put_same.
+    assert (Hh : has (put s1 (PTmp tv) (CMan m)) fin = has s1 fin).
+    { unfold has. rewrite get_put_other; [reflexivity | destruct fin; discriminate]. }
+    rewrite Hh. destruct (has s1 fin) eqn:E.
+    + split; [left; exact Ftmp | discriminate].
+    + destruct j; cbn [firstn exec]; split; auto.
+  - (* lock *)
+    destruct j as [|[|[|j]]]; cbn [firstn exec step]; (split; [intro Hj | intro Hj]); try lia; try exact F.
+    + destruct (has s1 fin); exact F.
+    + destruct (has s1 fin) eqn:E.
+      * split; [left; exact F | discriminate].
+      * destruct j as [|j]; cbn [firstn exec step]; [split; auto|]. destruct j; cbn [firstn exec]; split; auto.
+  - (* unsafe *)
+    destruct j as [|j]; cbn [firstn exec step]; (split; [intro Hj | intro Hj]); try lia; try exact F.
+    destruct j; cbn [firstn exec]; split; auto.
+Qed.
+
+(* ---------- programs ---------- *)
+Lemma exec_app a : forall b s, completes a s = true -> exec (a ++ b) s = exec b (exec a s).
+Proof.
+  induction a as [|c r IH]; intros b s H; [reflexivity|]. cbn [app exec completes] in *.
+  destruct (step s c); [apply IH; exact H | discriminate].
+Qed.
+Lemma completes_app a : forall b s, completes (a ++ b) s = completes a s && completes b (exec a s).
+Proof.
+  induction a as [|c r IH]; intros b s; [reflexivity|]. cbn [app exec completes].
+  destruct (step s c); [apply IH | reflexivity].
+Qed.
+
+Lemma Forall_firstn' {A} (P : A -> Prop) (l : list A) k : Forall P l -> Forall P (firstn k l).
+Proof.
+  revert k; induction l as [|x r IH]; intros k H; destruct k; cbn [firstn]; auto.
+  inversion H; subst. constructor; auto.
+Qed.
+
+Definition fp (l : list (N * N)) : list call := map (fun idd => Put (PFile (fst idd)) (CFile (snd idd))) l.
+
+Lemma fp_completes l : forall s, completes (fp l) s = true.
+Proof. induction l as [|x r IH]; intro s; [reflexivity|]. cbn [fp map completes step]. apply IH. Qed.
+
+Lemma fp_pre s l : (forall x, In x l -> max_file s < fst x) -> Forall (pre_commit_call s) (fp l).
+Proof.
+  induction l as [|x r IH]; intro H; cbn [fp map]; constructor.
+  - cbn [pre_commit_call]. apply H; left; reflexivity.
+  - apply IH. intros y Hy; apply H; right; exact Hy.
+Qed.
+
+Lemma fp_keep l : forall s i, (exists d, get s (PFile i) = Some (CFile d)) -> exists d, get (exec (fp l) s) (PFile i) = Some (CFile d).
+Proof.
+  induction l as [|x r IH]; intros s i H; [exact H|]. cbn [fp map exec step]. apply IH.
+  destruct (N.eq_dec (fst x) i) as [<-|Hne]; [rewrite get_put_same; eauto|].
+  rewrite get_put_other by (intro E; inversion E; contradiction). exact H.
+Qed.
+
+Lemma fp_exist l : forall s i, In i (map fst l) -> exists d, get (exec (fp l) s) (PFile i) = Some (CFile d).
+Proof.
+  induction l as [|x r IH]; intros s i H; [contradiction|]. cbn [fp map exec step].
+  destruct (N.eq_dec (fst x) i) as [<-|Hne].
+  - apply fp_keep. rewrite get_put_same; eauto.
+  - apply IH. destruct H as [H|H]; [contradiction | exact H].
+Qed.
+
+Lemma map_fst_combine {A B} (a : list A) : forall b : list B, length a = length b -> map fst (combine a b) = a.
+Proof.
+  induction a as [|x r IH]; intros [|y b] H; cbn in *; try discriminate; [reflexivity|].
+  f_equal. apply IH. lia.
+Qed.
+
+Definition file_list (s : store) (t : txn) : list (N * N) := combine (new_ids s t) (map fst (t_files t) ++ [0]).
+Lemma file_puts_fp s t : file_puts s t = fp (file_list s t).
+Proof. reflexivity. Qed.
+
+Lemma file_list_fst s t : map fst (file_list s t) = new_ids s t.
+Proof.
+  apply map_fst_combine. unfold new_ids. rewrite seqN_length, app_length, map_length. cbn [length]. lia.
+Qed.
+
+Lemma new_ids_fresh s t i : In i (new_ids s t) -> max_file s < i.
+Proof. unfold new_ids, next_file. intro H. apply seqN_in in H. lia. Qed.
+
+Lemma file_list_fresh s t x : In x (file_list s t) -> max_file s < fst x.
+Proof.
+  intro H. apply (new_ids_fresh s t). rewrite <- file_list_fst. apply in_map. exact H.
+Qed.
+
+Lemma file_puts_length s t : length (file_puts s t) = S (length (t_files t)).
+Proof.
+  rewrite file_puts_fp. unfold fp. rewrite map_length, <- (map_length fst), file_list_fst.
+  unfold new_ids. apply seqN_length.
+Qed.
+
+Lemma firstn_fp k l : firstn k (fp l) = fp (firstn k l).
+Proof. unfold fp. apply firstn_map. Qed.
+
+(* the handler's calls before its commit point keep the store framed *)
+Lemma commit_calls_prefix s h tv m j : (j <= commit_point h)%nat -> Forall (pre_commit_call s) (firstn j (commit_calls h tv m)).
+Proof.
+  intro Hj. unfold commit_calls.
+  destruct h; cbn [commit_point] in Hj;
+    repeat (destruct j as [|j]; [cbn [firstn]; repeat constructor | try lia]).
+Qed.
+
+Definition adopt_ok (s : store) (t : txn) : Prop :=
+  forall r, In r (t_adopt t) -> exists d, get s (PFile r) = Some (CFile d).
+
+Lemma open_get v s m : open v s = Some m -> get s (manifest_path v) = Some (CMan m).
+Proof. unfold open. destruct (get s (manifest_path v)) as [[d|m0]|]; intro H; inversion H; reflexivity. Qed.
+
+Lemma base_refs_exist s t inh : WF s -> base_refs s t = Some inh ->
+  forall r, In r inh -> exists d, get s (PFile r) = Some (CFile d).
+Proof.
+  intros W H. unfold base_refs in H.
+  assert (G : forall v m, open v s = Some m -> forall r, In r (m_refs m) -> exists d, get s (PFile r) = Some (CFile d)).
+  { intros v m Ho. apply open_get in Ho.
+    destruct (wf_man _ W _ _ (manifest_path_is_manifest v) Ho) as (m' & Hm & _ & Hr). inversion Hm; subst. exact Hr. }
+  destruct (t_base t) as [v|].
+  - destruct (open v s) as [m|] eqn:E; inversion H; subst. eapply G; eauto.
+  - destruct (latest s) as [n|]; [|inversion H; subst; intros r []].
+    destruct (open n s) as [m|] eqn:E; inversion H; subst. eapply G; eauto.
+Qed.
+
+(* the store after the file puts *)
+Lemma after_files s t : WF s ->
+  let s1 := exec (file_puts s t) s in
+  Frame s s1 /\ forall i, In i (new_ids s t) -> exists d, get s1 (PFile i) = Some (CFile d).
+Proof.
+  intros W s1. split.
+  - apply frame_exec; [apply Frame_refl; exact W|]. rewrite file_puts_fp. apply fp_pre. apply file_list_fresh.
+  - intros i Hi. unfold s1. rewrite file_puts_fp. apply fp_exist. rewrite file_list_fst. exact Hi.
+Qed.
+
+Lemma new_manifest_refs s t inh s1 : WF s -> adopt_ok s t -> base_refs s t = Some inh ->
+  Frame s s1 -> (forall i, In i (new_ids s t) -> exists d, get s1 (PFile i) = Some (CFile d)) ->
+  forall r, In r (m_refs (new_manifest s t inh)) -> exists d, get s1 (PFile r) = Some (CFile d).
+Proof.
+  intros W A B F Hnew r Hr. cbn [new_manifest m_refs] in Hr.
+  apply in_app_or in Hr as [Hr|Hr]; [apply Hnew; unfold new_refs in Hr; eapply mask_in; exact Hr|].
+  apply in_app_or in Hr as [Hr|Hr].
+  - apply mask_in in Hr. destruct (base_refs_exist s t inh W B r Hr) as [d Hd]. exists d. eapply frame_ref; eauto.
+  - destruct (A r Hr) as [d Hd]. exists d. eapply frame_ref; eauto.
+Qed.
+
+(* a write stopped at or before its commit point *)
+Lemma write_frame s h t k : WF s -> (k <= commit_pos s h t)%nat -> Frame s (apply_op s (Write h t k)).
+Proof.
+  intros W Hk. cbn [apply_op]. apply frame_exec; [apply Frame_refl; exact W|]. unfold write_program.
+  assert (Hpre : Forall (pre_commit_call s) (file_puts s t)).
+  { rewrite file_puts_fp. apply fp_pre. apply file_list_fresh. }
+  destruct (refused s t); [apply Forall_firstn'; exact Hpre|].
+  destruct (base_refs s t) as [inh|]; [|apply Forall_firstn'; exact Hpre].
+  rewrite firstn_app. apply Forall_app. split; [apply Forall_firstn'; exact Hpre|].
+  apply commit_calls_prefix. unfold commit_pos in Hk. lia.
+Qed.
+
+(* a program without commit calls (refused version number, unreadable base version) never publishes *)
+Lemma write_no_commit s h t k : WF s -> write_program s h t = file_puts s t -> Frame s (apply_op s (Write h t k)).
+Proof.
+  intros W E. cbn [apply_op]. rewrite E. apply frame_exec; [apply Frame_refl; exact W|].
+  apply Forall_firstn'. rewrite file_puts_fp. apply fp_pre. apply file_list_fresh.
+Qed.
+
+(* a write that ran past its commit point *)
+Lemma write_past s h t k inh : WF s -> adopt_ok s t -> refused s t = false -> base_refs s t = Some inh ->
+  (commit_pos s h t < k)%nat ->
+  let s' := apply_op s (Write h t k) in
+  let fin := manifest_path (target s t) in
+  let m := new_manifest s t inh in
+  (Frame s s' \/ Pub s s' fin m) /\ (has s fin = false -> Pub s s' fin m).
+Proof.
+  intros W A R B Hk s' fin m. subst s'. cbn [apply_op]. unfold write_program. rewrite R, B.
+  unfold commit_pos in Hk. rewrite firstn_app.
+  rewrite (firstn_all2 (n := k) (file_puts s t)) by lia.
+  rewrite exec_app by (rewrite file_puts_fp; apply fp_completes).
+  destruct (after_files s t W) as [F Hnew].
+  pose proof (new_manifest_refs s t inh _ W A B F Hnew) as Hrefs.
+  destruct (commit_calls_outcome s _ h (target s t) m (k - length (file_puts s t)) F Hrefs) as [_ H2].
+  destruct (H2 ltac:(lia)) as [H3 H4]. split; [exact H3|].
+  intro Hf. apply H4. fold fin. unfold has in *. rewrite (fr_man _ _ F fin (manifest_path_is_manifest _)). exact Hf.
+Qed.
+
+Lemma write_completes s h t inh : WF s -> refused s t = false -> base_refs s t = Some inh ->
+  has s (manifest_path (target s t)) = false -> completes (write_program s h t) s = true.
+Proof.
+  intros W R B Hf. unfold write_program. rewrite R, B. rewrite completes_app.
+  rewrite file_puts_fp at 1. rewrite fp_completes. cbn [andb].
+  destruct (after_files s t W) as [F _]. set (s1 := exec (file_puts s t) s) in *.
+  set (fin := manifest_path (target s t)) in *.
+  assert (Hf1 : has s1 fin = false).
+  { unfold has in *. rewrite (fr_man _ _ F fin (manifest_path_is_manifest _)). exact Hf. }
+  unfold commit_calls. fold fin. destruct h; cbn [completes step].
+  - rewrite Hf1. reflexivity.
+  - rewrite get_put_same.
+    assert (Hh : has (put s1 (PTmp (target s t)) (CMan (new_manifest s t inh))) fin = false).
+    { unfold has in *. rewrite get_put_other; [exact Hf1 | unfold fin, manifest_path; destruct (is_detached (target s t)); discriminate]. }
+    rewrite Hh. reflexivity.
+  - rewrite Hf1. reflexivity.
+  - reflexivity.
+Qed.
+
+(* ---------- detached version numbers ---------- *)
+Lemma is_detached_lor x : is_detached (N.lor x DETACHED_VERSION_MASK) = true.
+Proof.
+  unfold is_detached. rewrite N.land_lor_distr_l, N.land_diag.
+  destruct (N.eqb_spec (N.lor (N.land x DETACHED_VERSION_MASK) DETACHED_VERSION_MASK) 0) as [E|_]; [|reflexivity].
+  apply N.lor_eq_0_iff in E as [_ E]. discriminate.
+Qed.
+
+Lemma target_detached s t r : t_detached t = Some r -> is_detached (target s t) = true.
+Proof. intro H. unfold target. rewrite H. apply is_detached_lor. Qed.
+
+Lemma target_attached s t : t_detached t = None -> target s t = latest0 s + 1.
+Proof. intro H. unfold target. rewrite H. reflexivity. Qed.
+
+Lemma refused_attached s t : t_detached t = None -> refused s t = false -> is_detached (latest0 s + 1) = false.
+Proof. intros H R. unfold refused in R. rewrite H in R. rewrite (target_attached s t H) in R. exact R. Qed.
+
+Lemma next_absent s : WF s -> has s (PMan (latest0 s + 1)) = false.
+Proof.
+  intro W. destruct (has s (PMan (latest0 s + 1))) eqn:E; [|reflexivity]. apply (wf_dense _ W) in E. lia.
+Qed.
+
+(* ---------- (1) a write stopped before its commit point is invisible ---------- *)
+Lemma crash_prefix_invisible s h t k : WF s -> (k <= commit_pos s h t)%nat ->
+  let s' := exec (firstn k (write_program s h t)) s in
+  (forall v, visible s' v = visible s v) /\ latest s' = latest s /\ WF s'.
+Proof.
+  intros W Hk s'. pose proof (write_frame s h t k W Hk) as F. cbn [apply_op] in F. fold s' in F.
+  split; [apply frame_visible; assumption | split; [apply frame_latest; exact F | eapply frame_WF; eauto]].
+Qed.
+
+(* ---------- (2) a write that passes its commit point adds exactly version N+1 ---------- *)
+Lemma past_commit_one_version s h t inh k :
+  WF s -> adopt_ok s t -> t_detached t = None -> refused s t = false -> base_refs s t = Some inh ->
+  (commit_pos s h t < k)%nat ->
+  let s' := exec (firstn k (write_program s h t)) s in
+  let n := latest0 s in
+  let m := new_manifest s t inh in
+  latest s' = Some (n + 1)
+  /\ (forall v, v <> n + 1 -> visible s' v = visible s v)
+  /\ visible s (n + 1) = None
+  /\ visible s' (n + 1) = Some (m, map (fun r => get s' (PFile r)) (m_refs m))
+  /\ refs_exist s' m = true
+  /\ m_version m = n + 1
+  /\ WF s'.
+Proof.
+  intros W A D R B Hk s' n m.
+  pose proof (refused_attached s t D R) as Hnd. fold n in Hnd.
+  assert (Hfin : manifest_path (target s t) = PMan (n + 1)).
+  { rewrite (target_attached s t D). fold n. unfold manifest_path. rewrite Hnd. reflexivity. }
+  destruct (write_past s h t k inh W A R B Hk) as [_ HP]. cbn [apply_op] in HP. fold s' in HP.
+  rewrite Hfin in HP. specialize (HP (next_absent s W)). fold m in HP.
+  assert (Hv : m_version m = n + 1) by (unfold m; cbn [new_manifest m_version]; apply target_attached; exact D).
+  destruct (pub_attached s s' m W HP Hv Hnd) as (W' & HL & Hold & Hnone & Hnew & Hre).
+  exact (conj HL (conj Hold (conj Hnone (conj Hnew (conj Hre (conj Hv W')))))).
+Qed.
+
+Lemma success_one_version s h t inh :
+  WF s -> adopt_ok s t -> t_detached t = None -> refused s t = false -> base_refs s t = Some inh ->
+  let w := write_program s h t in
+  let s' := exec w s in
+  let n := latest0 s in
+  let m := new_manifest s t inh in
+  completes w s = true
+  /\ latest s' = Some (n + 1)
+  /\ (forall v, v <> n + 1 -> visible s' v = visible s v)
+  /\ visible s (n + 1) = None
+  /\ visible s' (n + 1) = Some (m, map (fun r => get s' (PFile r)) (m_refs m))
+  /\ refs_exist s' m = true
+  /\ m_version m = n + 1
+  /\ WF s'.
+Proof.
+  intros W A D R B w s' n m.
+  assert (Hlen : (commit_pos s h t < length w)%nat).
+  { unfold w, write_program, commit_pos. rewrite R, B, app_length. unfold commit_calls. destruct h; cbn [length commit_point]; lia. }
+  pose proof (past_commit_one_version s h t inh (length w) W A D R B Hlen) as H.
+  cbn zeta in H. fold w in H. rewrite firstn_all in H. fold s' n m in H.
+  split; [|exact H].
+  apply (write_completes s h t inh W R B).
+  rewrite (target_attached s t D). unfold manifest_path. rewrite (refused_attached s t D R). apply next_absent; exact W.
+Qed.
+
+(* ---------- one write of a history ---------- *)
+Definition op_ok (s : store) (o : op) : Prop := match o with Write _ t _ => adopt_ok s t end.
+
+Lemma apply_op_inv s o : WF s -> op_ok s o ->
+  let s' := apply_op s o in
+  WF s' /\ latest0 s <= latest0 s' <= latest0 s + 1
+  /\ (forall v, 1 <= v <= latest0 s -> visible s' v = visible s v).
+Proof.
+  intros W A s'. destruct o as [h t k]. cbn [op_ok] in A.
+  assert (FR : Frame s s' -> WF s' /\ latest0 s <= latest0 s' <= latest0 s + 1
+                               /\ (forall v, 1 <= v <= latest0 s -> visible s' v = visible s v)).
+  { intro F. split; [eapply frame_WF; eauto|]. split.
+    - unfold latest0. rewrite (frame_latest _ _ F). lia.
+    - intros v _. apply frame_visible; assumption. }
+  destruct (Nat.le_gt_cases k (commit_pos s h t)) as [Hk|Hk]; [apply FR; apply write_frame; assumption|].
+  destruct (refused s t) eqn:R.
+  { apply FR. apply write_no_commit; [exact W|]. unfold write_program. rewrite R. reflexivity. }
+  destruct (base_refs s t) as [inh|] eqn:B.
+  2:{ apply FR. apply write_no_commit; [exact W|]. unfold write_program. rewrite R, B. reflexivity. }
+  destruct (write_past s h t k inh W A R B Hk) as [[F|P] _]; [apply FR; exact F|].
+  fold s' in P. destruct (t_detached t) as [r|] eqn:D.
+  - pose proof (target_detached s t r D) as Hd.
+    unfold manifest_path in P. rewrite Hd in P.
+    destruct (pub_detached s s' (target s t) _ W P eq_refl Hd) as (W' & HL & Hvis).
+    split; [exact W'|]. split; [unfold latest0; rewrite HL; lia | intros v _; apply Hvis].
+  - pose proof (refused_attached s t D R) as Hnd.
+    rewrite (target_attached s t D) in P. unfold manifest_path in P. rewrite Hnd in P.
+    assert (Hv : m_version (new_manifest s t inh) = latest0 s + 1) by (cbn [new_manifest m_version]; apply target_attached; exact D).
+    destruct (pub_attached s s' _ W P Hv Hnd) as (W' & HL & Hold & _).
+    split; [exact W'|]. split; [unfold latest0 at 2 3; rewrite HL; lia|].
+    intros v Hv'. apply Hold. lia.
+Qed.
+
+(* ---------- (3) WF is an invariant of every history ---------- *)
+Fixpoint ops_ok (ops : list op) (s : store) : Prop :=
+  match ops with
+  | [] => True
+  | o :: r => op_ok s o /\ ops_ok r (apply_op s o)
+  end.
+
+Lemma reachable_WF_dense ops : forall s0, WF s0 -> ops_ok ops s0 ->
+  let s := run_ops ops s0 in
+  WF s
+  /\ latest0 s0 <= latest0 s <= latest0 s0 + N.of_nat (length ops)
+  /\ (forall v, 1 <= v <= latest0 s0 -> visible s v = visible s0 v).
+Proof.
+  induction ops as [|o r IH]; intros s0 W A; cbn [run_ops fold_left length].
+  - split; [exact W|]. split; [lia | reflexivity].
+  - destruct A as [A1 A2].
+    destruct (apply_op_inv s0 o W A1) as (W1 & HL1 & Hv1).
+    destruct (IH (apply_op s0 o) W1 A2) as (W2 & HL2 & Hv2).
+    fold (run_ops r (apply_op s0 o)). split; [exact W2|]. split; [lia|].
+    intros v Hv. rewrite Hv2 by lia. apply Hv1; exact Hv.
+Qed.
+
+Lemma WF_empty : WF [].
+Proof.
+  constructor; cbn; intros; try discriminate. split; [discriminate | lia].
+Qed.
+
+(* ---------- (4) detached commits never become the latest version ---------- *)
+Lemma latest_ignores_detached_name s v c : is_detached v = true -> latest (put s (manifest_path v) c) = latest s.
+Proof. intro H. unfold manifest_path. rewrite H. reflexivity. Qed.
+
+Lemma latest_not_detached s v : WF s -> latest s = Some v -> is_detached v = false.
+Proof.
+  intros W H. destruct (latest_some _ _ H) as [[c Hc] _]. apply (wf_att _ W). apply has_true; eauto.
+Qed.
+
+Lemma detached_commit_invisible s h t k r : WF s -> adopt_ok s t -> t_detached t = Some r ->
+  let s' := apply_op s (Write h t k) in
+  latest s' = latest s /\ (forall v, visible s' v = visible s v) /\ WF s'.
+Proof.
+  intros W A D s'.
+  assert (FR : Frame s s' -> latest s' = latest s /\ (forall v, visible s' v = visible s v) /\ WF s').
+  { intro F. split; [apply frame_latest; exact F | split; [apply frame_visible; assumption | eapply frame_WF; eauto]]. }
+  destruct (Nat.le_gt_cases k (commit_pos s h t)) as [Hk|Hk]; [apply FR; apply write_frame; assumption|].
+  assert (R : refused s t = false) by (unfold refused; rewrite D; reflexivity).
+  destruct (base_refs s t) as [inh|] eqn:B.
+  2:{ apply FR. apply write_no_commit; [exact W|]. unfold write_program. rewrite R, B. reflexivity. }
+  destruct (write_past s h t k inh W A R B Hk) as [[F|P] _]; [apply FR; exact F|].
+  fold s' in P. pose proof (target_detached s t r D) as Hd.
+  unfold manifest_path in P. rewrite Hd in P.
+  destruct (pub_detached s s' (target s t) _ W P eq_refl Hd) as (W' & HL & Hvis). auto.
 Qed.
